@@ -17,7 +17,7 @@ V = os.path.dirname(os.path.abspath(__file__))
 REPO = os.environ.get("VERIF_REPO", "/repo")
 GOENV = dict(os.environ, GOFLAGS="-mod=mod", GOPROXY="off", GOSUMDB="off", GOTOOLCHAIN="local")
 GOMODCACHE = subprocess.run(["go", "env", "GOMODCACHE"], capture_output=True, text=True, env=GOENV).stdout.strip() or os.path.expanduser("~/go/pkg/mod")
-MAXPROC = int(os.environ.get("VERIF_PROCS", "10"))
+MAXPROC = int(os.environ.get("VERIF_PROCS", "5"))
 
 
 def sh(cmd, **kw):
@@ -113,6 +113,58 @@ def run_func(binp, pid, tier, run, fn, outdir, fixed=None, tag=""):
         except Exception:
             res = None
     return {"run": run, "fn": fn, "rc": rc, "stderr": err[-3000:], "res": res, "wall": time.time() - t0, "env": env}
+
+
+def run_group(binp, pid, tier, run, fns, outdir, gomaxprocs):
+    """One gosym process (one load of the package) exploring several harness functions one after the other."""
+    files, pk = render_files(run, outdir)
+    api = gen_api("sym", pk, os.path.join(outdir, "api_sym_" + pk))
+    fss, envs = [], []
+    budget = 0
+    for fn in fns:
+        env = dict(tier_sel(fn, tier, "env", {}) or {})
+        envs.append(env)
+        b = tier_sel(fn, tier, "budget_s", 900)
+        budget += b
+        fss.append({"name": fn["name"], "merge": fn.get("merge", []), "redirect": fn.get("redirect", {}),
+                    "int": bool(fn.get("int", run.get("int", False))), "maxpaths": tier_sel(fn, tier, "maxpaths", 0),
+                    "budget_s": b, "env": env})
+    spec = {"repo": REPO, "pkg": run["pkg"], "dir": run["dir"], "files": files + [api],
+            "init": run.get("init", []), "redirect": run.get("redirect", {}), "merge": run.get("merge", []),
+            "opaque": run.get("opaque", []), "funcs": fss}
+    gid = "group_" + "_".join(fn.get("id", fn["name"]) for fn in fns)[:80]
+    base = os.path.join(outdir, gid)
+    json.dump(spec, open(base + ".spec.json", "w"), indent=1)
+    # individual specs too (used by replay / debugging)
+    for fn, fs in zip(fns, fss):
+        one = dict(spec, funcs=[fs])
+        json.dump(one, open(os.path.join(outdir, fn.get("id", fn["name"]) + ".spec.json"), "w"), indent=1)
+    t0 = time.time()
+    e = dict(GOENV, GOMAXPROCS=str(gomaxprocs))
+    try:
+        r = subprocess.run([binp, "-spec", base + ".spec.json", "-out", base + ".result.json"], capture_output=True, text=True,
+                           env=e, timeout=budget + 600)
+        rc, err = r.returncode, r.stderr
+    except subprocess.TimeoutExpired:
+        rc, err = 124, "timeout"
+    open(base + ".log", "w").write(err)
+    res = None
+    if os.path.exists(base + ".result.json"):
+        try:
+            res = json.load(open(base + ".result.json"))
+        except Exception:
+            res = None
+    out = []
+    for i, fn in enumerate(fns):
+        one = None
+        if res is not None:
+            one = {"load_s": res.get("load_s", 0), "load_errors": res.get("load_errors"), "funcs": []}
+            if res.get("funcs") and i < len(res["funcs"]):
+                one["funcs"] = [res["funcs"][i]]
+                json.dump(one, open(os.path.join(outdir, fn.get("id", fn["name"]) + ".result.json"), "w"))
+        wall = (one["funcs"][0].get("wall_s", 0) if one and one["funcs"] else 0)
+        out.append({"run": run, "fn": fn, "rc": rc, "stderr": err[-3000:], "res": one, "wall": wall, "env": envs[i]})
+    return out
 
 
 def native_replay(pid, run, fn, viol, outdir, env, idx):
@@ -214,10 +266,26 @@ def main():
         import random
         random.Random(seed).shuffle(jobs)
     results = []
+    # harness functions of one package share a process (one load); at most MAXPROC processes in total
+    groups = {}
+    for run, fn in jobs:
+        groups.setdefault(id(run), (run, []))[1].append(fn)
+    total_cost = sum(tier_sel(fn, tier, "cost", 1) for _, fn in jobs) or 1
+    bins = []
+    for run, fns in groups.values():
+        cost = sum(tier_sel(fn, tier, "cost", 1) for fn in fns)
+        nb = max(1, min(len(fns), int(round(MAXPROC * cost / total_cost))))
+        bs = [[0, []] for _ in range(nb)]
+        for fn in sorted(fns, key=lambda f: -tier_sel(f, tier, "cost", 1)):
+            b = min(bs, key=lambda x: x[0])
+            b[0] += tier_sel(fn, tier, "cost", 1)
+            b[1].append(fn)
+        bins += [(run, b[1]) for b in bs if b[1]]
+    gmp = max(2, 16 // max(1, len(bins)))
     with cf.ThreadPoolExecutor(max_workers=MAXPROC) as ex:
-        futs = [ex.submit(run_func, binp, pid, tier, run, fn, outdir) for run, fn in jobs]
+        futs = [ex.submit(run_group, binp, pid, tier, run, fns, outdir, gmp) for run, fns in bins]
         for f in futs:
-            results.append(f.result())
+            results += f.result()
 
     violations = 0
     lines = []
